@@ -673,7 +673,7 @@ class Emitter:
         ret = self.ctype(n)
         if isref:
             ret += "*"
-        cname = self.fn_cname(tag, name, None)
+        cname = self.fn_cname(tag, name, ",".join(pcs))  # overloads: rename key "Class__m|<inferred C param types>"
         pc = (["struct %s*" % tag] if obj is not None else []) + pcs
         self.note_proto(cname, ret, pc, "%s::%s (signature inferred at call site)" % (tag, name))
         self.callees.setdefault(cname, "%s::%s" % (tag, name))
